@@ -262,7 +262,7 @@ CLAIMED["C08"] = dict(
     "top of the placeholder model with explicit heap), tied to the code by U9. Theorems: split_string does not cut texts without "
     "private-use characters, _xpath sees exactly the live view, the placeholder table is one-to-one (C11); for the whole formatter "
     "without text tags and without use_replace the tree handed to render has no placeholder character, whatever script the handlers "
-    "accept (C08_output_placeholder_free: an invariant over all twelve handlers plus finalize on marked trees); with text tags for the "
+    "accept (C08_output_placeholder_free: an invariant over all twelve handlers plus finalize on marked trees), and for the scripts of the model differ with the engine model inside, totality included, with hypotheses on the two documents only (C08_differ_script_engine); with text tags for the "
     "empty script (C11_prepare_then_finalize). PARTIAL: totality, re-parsing, absence of private-use characters with text tags / "
     "use_replace (text, tails and attribute values) and the namespace discipline are decided on every run by the oracle on the real "
     "output over all formatter configurations. "
@@ -277,7 +277,7 @@ CLAIMED["C09"] = dict(
     "ghost-free view and with an explicit index selects what the counting evaluator selects there; _join_delete_insert keeps the "
     "accepted text; the accept simulation at tree level for all actions (C09_accept_simulation: no text tags, no "
     "use_replace, tree before finalize - if the patcher accepts the script, every formatter handler succeeds and the accepted view "
-    "of the working tree, ghosts dropped, diff: attributes removed, marked texts read back, is the patched tree up to a one-to-one renaming of node ids - the patcher is proved independent of ids; for the scripts of the model differ all script-level hypotheses are discharged: C09_differ_script; with the text engine model inside the formatter model - every text handler on the answer diff_main + diff_cleanupSemantic give for the text the working tree holds against the new text, any diff_bisect behaviour - nothing is assumed along the run any more: C09_differ_script_engine, from C17 at-most-once through the marked-at-most-once invariant, texts of at most 27000 characters, no WS_TEXT normalisation); one text update end to end at text level (C09_text_update_accept: _make_diff_tags on the modelled diff_main + "
+    "of the working tree, ghosts dropped, diff: attributes removed, marked texts read back, is the patched tree up to a one-to-one renaming of node ids - the patcher is proved independent of ids; for the scripts of the model differ all script-level hypotheses are discharged: C09_differ_script; with the text engine model inside the formatter model - every text handler on the answer diff_main + diff_cleanupSemantic give for the text the working tree holds against the new text, any diff_bisect behaviour - nothing is assumed along the run any more: C09_differ_script_engine, from C17 at-most-once through the marked-at-most-once invariant, hypotheses on the two documents only: texts of at most 27000 characters, no WS_TEXT normalisation); one text update end to end at text level (C09_text_update_accept: _make_diff_tags on the modelled diff_main + "
     "diff_cleanupSemantic of two texts without private-use characters, then undo_string: accepting every wrapper spells the new text). PARTIAL: text tags, use_replace and the accepted view after finalize at tree level are not proved; the property is decided on every run "
     "by the accept-all projection of the real output against R. Known findings X1 (text after a comment lost) and X2 (tail of a "
     "deleted / moved node unmarked) are violations of the pinned code that cannot be repaired without editing golden-file tests.",
